@@ -26,11 +26,9 @@ func (m *Module) Init(s *models.Session, p *models.Participant) {
 	m.currentSession = s
 	m.currentParticipant = p
 
-	state, ok := s.ModuleState(m.Name())
-	if !ok {
-		state = &State{SpatialPartition: NewRegularGrid(1, 1, 2)}
-		s.SetModuleState(m.Name(), state)
-	}
+	state := s.ModuleStateOrSet(m.Name(), func() any {
+		return &State{SpatialPartition: NewRegularGrid(1, 1, 2)}
+	})
 	m.state = state.(*State)
 }
 
